@@ -333,9 +333,8 @@ def check_history_oracles(ctx, jobs, a, which):
         p = c['prog']
         if is_crash(x):
             kind = 'crash'
-            if 'signed integer overflow' in x or 'cannot be represented' in x:
-                if 'C20' in which:
-                    ctx.violation('vm-arith-ub', 'undefined arithmetic in the VM: ' + x[:300], {'source': c['text'], 'history': h})
+            if ('signed integer overflow' in x or 'cannot be represented' in x) and 'C20' in which:
+                ctx.violation('vm-arith-ub', 'undefined arithmetic in the VM: ' + x[:300], {'source': c['text'], 'history': h})
             elif which & {'C05', 'C06', 'C17', 'C19'}:
                 ctx.violation('vm-crash', 'VM crashed / timed out during a debugger history: ' + x[:300], {'source': c['text'], 'history': h})
             continue
